@@ -10,3 +10,6 @@ pub mod pipes;
 pub mod pure;
 pub mod ctx;
 pub mod net;
+pub mod misc;
+pub mod spin;
+pub mod tunnel;
